@@ -15,6 +15,7 @@
 from __future__ import annotations
 
 import ast
+import re
 from typing import Any, Dict, List, Optional, Set, Tuple
 
 from engine.cfg import build_cfg
@@ -42,6 +43,7 @@ def run(ctx: Any, prog: Program) -> None:
     ctx.rule('C13.Z7', 'write_dirfile either always writes or its skip flag is set by every mutating method', floor=1)
     ctx.rule('C13.Z8', 'the directory string reader keeps what it has read across iterations (no per-iteration reset before `continue`)', floor=1)
     ctx.rule('C13.Z6', 'preload length fits the 16-bit directory field', floor=1)
+    ctx.rule('C13.Z9', 'a sub-tree of the file index is dropped only when that very container is empty', floor=2)
 
     # ---- Z1 ------------------------------------------------------------------------------------------------
     def mutates(fn: ast.AST, is_fileinfo: bool) -> List[str]:
@@ -288,6 +290,53 @@ def run(ctx: Any, prog: Program) -> None:
                 sets_flag = any(isinstance(n, ast.Assign) and isinstance(n.targets[0], ast.Attribute) and n.targets[0].attr == flag and isinstance(n.value, ast.Constant) and n.value.value is True for n in ast.walk(fn))
                 ctx.check('C13.Z7', sets_flag, vpk, fn, f'write_dirfile() returns early while `self.{flag}` is false, but {owner}.{name} changes the archive ({m_[0]}) without setting it: a session consisting only of such '
                           'operations is never written, and the reopened archive still has the old content', func=f'{owner}.{name}', text=f'{owner}.{name} sets the {flag} flag')
+    # ---- Z9 ------------------------------------------------------------------------------------------------
+    # _fileinfo is ext -> folder -> name -> FileInfo and the archive root is the folder ''.  Dropping a level is right only when the
+    # container one level down is empty; a test on something else (e.g. any(folders): truthiness of the KEYS, false for the root folder
+    # alone) removes files that are still there.
+    n_drop = 0
+    for name, fn in vm.items():
+        derived: Dict[str, Tuple[str, str]] = {}       # local -> (parent container, key source)
+        for n in sorted((x for x in walk_no_nested(fn) if isinstance(x, ast.Assign)), key=lambda x: (x.lineno, x.col_offset)):
+            if isinstance(n, ast.Assign) and isinstance(n.value, ast.Subscript) and isinstance(n.targets[0], ast.Name):
+                par = dotted(n.value.value)
+                if par == 'self._fileinfo' or par in derived:
+                    derived[n.targets[0].id] = (par or '', ast.unparse(n.value.slice))
+        for n in walk_no_nested(fn):
+            cont = key = None
+            if isinstance(n, ast.Call) and isinstance(n.func, ast.Attribute) and n.func.attr == 'pop' and n.args:
+                cont, key = dotted(n.func.value), ast.unparse(n.args[0])
+            elif isinstance(n, ast.Delete) and isinstance(n.targets[0], ast.Subscript):
+                cont, key = dotted(n.targets[0].value), ast.unparse(n.targets[0].slice)
+            if cont is None or not (cont == 'self._fileinfo' or cont in derived):
+                continue
+            child = [c for c, (p_, k_) in derived.items() if p_ == cont and k_ == key]
+            if not child:
+                continue            # a leaf removal (the file itself)
+            n_drop += 1
+            guard = None
+            cur: Any = n
+            while cur is not None and cur is not fn:
+                par_ = vpk.parents.get(cur)
+                if isinstance(par_, ast.If) and any(cur is b or any(cur is x for x in ast.walk(b)) for b in par_.body):
+                    if any(isinstance(x, ast.Name) and x.id == child[0] for x in ast.walk(par_.test)):
+                        guard = par_.test
+                        break
+                cur = par_
+            if guard is None:
+                ctx.check('C13.Z9', False, vpk, n, f'VPK.{name} drops `{cont}[{key}]` without testing that `{child[0]}` is empty', func=f'VPK.{name}', text=f'{name}: drop of {cont}[{key}] guarded by emptiness of {child[0]}')
+                continue
+            gs = ast.unparse(guard)
+            empties = (f'not {child[0]}', f'len({child[0]}) == 0', f'{child[0]} == {{}}')
+            if gs in empties:
+                ctx.check('C13.Z9', True, vpk, n, 'emptiness test', func=f'VPK.{name}', text=f'{name}: drop of {cont}[{key}] guarded by emptiness of {child[0]}')
+            elif re.search(r'\b(any|all)\(\s*' + re.escape(child[0]) + r'\s*\)', gs):
+                ctx.check('C13.Z9', False, vpk, n, f'VPK.{name} drops `{cont}[{key}]` when `{gs}`: any()/all() over a dict look at the truthiness of its KEYS, and the archive root is stored under the empty string - '
+                          'with only root-level files left the whole level is removed although it still holds files', func=f'VPK.{name}', text=f'{name}: drop of {cont}[{key}] guarded by emptiness of {child[0]}')
+            else:
+                ctx.shape('C13.Z9', False, vpk, n, f'guard `{gs}` of the drop of `{cont}[{key}]` is not an enumerated emptiness test', func=f'VPK.{name}', text=f'{name}: drop of {cont}[{key}] guarded by emptiness of {child[0]}')
+    if n_drop < 2:
+        raise AnalysisError(f'Z9: only {n_drop} index sub-tree removals found (2 confirmed by hand in VPK.__delitem__)')
     # ---- Z8 ------------------------------------------------------------------------------------------------
     ins_ = vpk.func('iter_nullstr')
     n_z8 = 0
@@ -368,6 +417,8 @@ def run(ctx: Any, prog: Program) -> None:
         ctx.shape('C13.Z6', False, vpk, w, 'preload slice bound not recognised', func='FileInfo.write', text='preload bounded to 16 bits')
 
 MUTANTS = [
+    {'id': 'ext_dropped_when_no_truthy_folder', 'file': 'vpk.py', 'find': "            if not folders:\n                # Clear extension too.", 'replace': "            if not any(folders):\n                # Clear extension too.", 'expect': 'C13.Z9'},
+    {'id': 'ext_dropped_len_zero', 'file': 'vpk.py', 'find': "            if not folders:\n                # Clear extension too.", 'replace': "            if len(folders) == 0:\n                # Clear extension too.", 'expect': None},
     {'id': 'delitem_unguarded', 'file': 'vpk.py', 'find': "        self._check_writable()\n\n        path, filename, ext = _get_file_parts(item)\n\n        try:\n            folders = self._fileinfo[ext]", 'replace': "        path, filename, ext = _get_file_parts(item)\n\n        try:\n            folders = self._fileinfo[ext]", 'expect': 'C13.Z1'},
     {'id': 'entry_fields_swapped', 'file': 'vpk.py', 'find': "                            info.offset,\n                            info.arch_len,\n                            0xffff,", 'replace': "                            info.arch_len,\n                            info.offset,\n                            0xffff,", 'expect': 'C13.Z2'},
     {'id': 'entry_format_changed', 'file': 'vpk.py', 'find': "                        file.write(struct.pack(\n                            '<IHHIIH',", 'replace': "                        file.write(struct.pack(\n                            '<IHHIIh',", 'expect': 'C13.Z2'},
